@@ -11,6 +11,7 @@ import Proofs.C04_Accept
 import Proofs.C04_Hist
 import Proofs.C04_Family
 import Proofs.C04_Orient
+import Proofs.C04_Source
 import Mathlib.Tactic.Ring
 import Mathlib.Tactic.Linarith
 import Mathlib.Tactic.Positivity
